@@ -320,7 +320,8 @@ func VerticalZoom(inputZoom int64, vIndex int64, outputZoom int64) []string {
 	} else if vZoomDiff < 0 {
 		// 垂直精度が下がった場合
 		// 変換後の v 成分の最小値を定義
-		minVparam = vIndex / vVoxelNum
+		// 負のインデックスでも床関数となるよう算術シフトで求める
+		minVparam = common.CalculateArithmeticShift(vIndex, vZoomDiff)
 
 		// 変換後の z 成分の最大値を定義
 		maxVparam = minVparam
